@@ -1361,7 +1361,37 @@ def build_streams(tier, rng):
         p["mode"], p["layout"], p["allow_strings_on_one_line"] = "min", "packed", True
         ps.append(p)
     streams["several string definitions on one line"] = ps
+    streams["witnesses of the listed findings"] = finding_witnesses()
     return streams, g
+
+
+def finding_witnesses():
+    """One fixed program per listed finding (C19-F7 is in UNSUPPORTED), so that every run reproduces each of them."""
+    L = lambda n, f="d": ("lit", n, f)       # noqa: E731
+    sec0 = lambda sts: [(L(0), sts)]         # noqa: E731
+    img = bytes(range(64))
+    kb = ("keyblob", L(0), [("start", ("int", L(0x08001000, "x"))), ("end", ("int", L(0x080023FF, "x"))),
+                            ("key", ("str", "000102030405060708090a0b0c0d0e0f")), ("counter", ("str", "0123456789abcdef"))])
+    progs = [
+        {"blocks": [("options", [])], "sections": sec0([("load", None, ("pat", ("size", L(0x55, "x"), "b")), ("range", L(0x2000, "x"), L(0x3000, "x")))])},
+        {"blocks": [("constants", [(1, ("int", L(1)))]), ("options", [(2, ("defined", 1))])], "sections": sec0([])},
+        {"blocks": [("options", [(1, ("and", ("int", L(2)), ("int", L(3)))), (2, ("cmp", "==", ("and", ("int", L(2)), ("int", L(3))), ("int", L(1))))])],
+         "sections": sec0([])},
+        {"blocks": [("options", [])], "sections": sec0([("load", None, ("blob", "aabbccdd"), ("addr", L(0x100, "x")))])},
+        {"blocks": [("options", [])], "sections": sec0([("load", ("at", L(288)), ("blob", "ff2e9007775f1d20"), ("addr", L(0xA0000000, "x")))])},
+        {"blocks": [("options", [])], "sections": sec0([("reset",)])},
+        {"blocks": [("options", [])], "sections": sec0([("call", L(0x100, "x"), ("arg", L(5)))])},
+        {"blocks": [("options", [(1, ("str", "1.0.0")), (2, ("str", "2.0.0"))])], "sections": sec0([]), "allow_strings_on_one_line": True, "layout": "packed"},
+        {"blocks": [("options", []), kb], "sections": sec0([("encrypt", L(0), None, ("file", "w_img.bin"), ("addr", L(0x08001400, "x")))]),
+         "files": {"w_img.bin": list(img)}, "filedata": {"w_img.bin": img}},
+    ]
+    for p in progs:
+        p.setdefault("extern", [])
+        p.setdefault("files", {})
+        p.setdefault("filedata", {})
+        p.setdefault("mode", "min")
+        p.setdefault("layout", "lines")
+    return progs
 
 
 def expression_cases(tier, rng, g):
